@@ -48,6 +48,12 @@ def skel_isUncatchableException : List String := [
 
 def skel_handleThrow : List String := [
   "ex := vm.exceptionFromValue(arg)",
+  "if ex != nil",
+  ".defer func() { if x := recover",
+  "..func{",
+  "...if x := recover(); x != nil",
+  "....ret = vm.handleThrow(x)",
+  "..}",
   "for ; len(vm.tryStack) > 0; ",
   ".if tf.catchPos == -1 && tf.finallyPos == -1 || ex == nil && tf.catchPos != tryPanicMarker",
   "..tf.exception = nil",
@@ -357,6 +363,7 @@ def recoverSites : List String := [
   "runtime.go:*Runtime.runWrapped",
   "runtime.go:tryFunc",
   "runtime.go:*Runtime.Try",
+  "vm.go:*vm.handleThrow",
   "vm.go:*vm.try",
   "vm.go:*vm.runTryInner"]
 
